@@ -18,8 +18,10 @@ PROPS = {
     "C04": dict(units=["task"], level="proof", assumptions=TASK_ASSUME,
                 explanation="inductive invariant I1 (live children == the one child owned by the state) assumed at entry and proved at every exit of both select arms of the job task, for every control, every child behaviour and every failure of kill/wait/spawn; CommandState::{spawn,wait,reset} bodies proved against the contracts the arms rely on"),
     "C06": dict(units=["task"], level="proof", assumptions=TASK_ASSUME),
-    "C07": dict(units=["task"], level="proof", assumptions=TASK_ASSUME + [
-        "Flag::poll and Flag::raise are each treated as atomic; wake-up of every waiting task is decided in unit `flag`"]),
+    "C07": dict(units=["task", "flag"], level="proof", assumptions=TASK_ASSUME + [
+        "Flag::poll and Flag::raise are each treated as atomic (no interleaving inside one call; Relaxed orderings and the register-then-recheck argument are not verified)",
+        "Ticket::poll (futures::future::select over job_gone and control_done) is not under contract: a ticket is ready iff one of its two flags is raised",
+        "std Mutex poisoning (panic while the waker list is locked) is not modelled"]),
     "C09": dict(units=["task"], level="proof", assumptions=TASK_ASSUME),
     "C10": dict(units=["task"], level="proof", assumptions=TASK_ASSUME + [
         "'looking at the queues' is the entry of recv: messages arriving during the blocking select may be picked in any order"]),
